@@ -631,6 +631,12 @@ def run_dht(scenario, run, monitor=False, corrupt_factory=None, max_steps=12_000
                                       f'node {i} returned {len(want) - len(missing)} of them', stored=len(want))
                         return
         run.probes['hostile_reply_seen'] += sum(v for k, v in run.faults.items() if k.startswith('hostile_'))
+        # observation only (no clause of the statement): background ping traffic.  A host that answers every request
+        # from another port than it listens on made the first version of the repair of DESIGN 14 row 24 ping it for
+        # ever (about 37 pings a second per node); the amended repair treats another port of the same host as an update
+        if loop.time() > 100 and any(c > 5 * loop.time() for c in world.pings_by_node.values()):
+            run.probes['ping_rate_above_5_per_second'] += 1
+            run.notes.append(f'ping runaway: {sorted(world.pings_by_node.values())[-3:]} pings in {loop.time():.0f}s')
 
     try:
         run.drive(driver())
